@@ -1,6 +1,6 @@
 """Concurrent correspondence: programs run on the real crate under the controlled scheduler
 (harness/target/release/conc), implementation-side monitors evaluated on the event traces."""
-import os, re, subprocess, random, hashlib
+import os, re, subprocess, random, hashlib, zlib
 from collections import Counter
 from concurrent.futures import ThreadPoolExecutor
 
@@ -77,6 +77,13 @@ def gen_program(profile, rng, idx):
         for k in range(rng.randint(*profile.ops)):
             names, weights = zip(*profile.macros.items()) if isinstance(profile.macros, dict) else (profile.macros, None)
             macro = rng.choices(names, weights)[0]
+            if macro in ("drops", "dropr"):
+                # a future borrows its handle for as long as the future object exists (completed or not): drop those first
+                side = "s" if macro == "drops" else "r"
+                for o in list(ops):
+                    m_ = re.match(r"(asend|arecv|stream) (\d+)", o)
+                    if m_ and (m_.group(1) == "asend") == (side == "s") and f"drop{side}f {m_.group(2)}" not in ops:
+                        ops.append(f"drop{side}f {m_.group(2)}")
             ops += expand(macro, t, k, rng)
             if macro in ("drops", "dropr"):
                 break     # a thread that gave up a handle does not use that side again (it has no other handle)
@@ -585,7 +592,27 @@ def mon_waker_life(run):
     return bad[:3]
 
 
+PROTOCHECK = os.path.join(ROOT, "lean", ".lake", "build", "bin", "protocheck")
+
+
+def mon_proto(run):
+    """C06/C07/C17 trace validation: the run's lock events and per-signal events must be an execution of the Lean
+    protocol models MutexM / SigM (instantiated with the extracted orderings and constants), ending without
+    `racy` / `dangling` (lean exe `protocheck`)."""
+    if "LIMIT" in run.end or "TIMEOUT" in run.end:
+        return []
+    p = subprocess.run([PROTOCHECK], input="\n".join(run.lines) + "\n", stdout=subprocess.PIPE, stderr=subprocess.PIPE, text=True)
+    out = p.stdout.strip().split("\n")[-1] if p.stdout.strip() else "no output"
+    if out.startswith("ACCEPT"):
+        m = re.search(r"mutex_steps=(\d+) signals=(\d+) signal_steps=(\d+)", out)
+        if m:
+            run.proto = tuple(int(x) for x in m.groups())
+        return []
+    return [out[:400]]
+
+
 ALL_MONITORS = {
+    "proto": lambda run, ctx: mon_proto(run),
     "wakerlife": lambda run, ctx: mon_waker_life(run),
     "drain": lambda run, ctx: mon_drain(run),
     "ptr": lambda run, ctx: mon_ptr(run),
@@ -629,7 +656,7 @@ def run_linearizability(profile, seed, stats, runs_per_prog=6, workers=16):
         res = []
         for k in range(runs_per_prog):
             strat = profile.strategies[(k + rng.randint(0, 100)) % len(profile.strategies)]
-            pr = re.sub(r"seed=\d+", f"seed={1 + k * 7919 + (hash(prog) % 1000)}", re.sub(r"strategy=\S+", f"strategy={strat}", prog))
+            pr = re.sub(r"seed=\d+", f"seed={1 + k * 7919 + (zlib.crc32(prog.encode()) % 1000)}", re.sub(r"strategy=\S+", f"strategy={strat}", prog))
             run = run_conc(pr)
             oc = run_outcome(run)
             res.append((pr, run, oc))
@@ -658,7 +685,7 @@ def run_linearizability(profile, seed, stats, runs_per_prog=6, workers=16):
 
 def run_profile(profile, seed, monitors, oracles, stats, workers=16):
     """Generate profile.n programs from `seed`, run each, evaluate monitors.  Returns list of failure dicts."""
-    rng = random.Random(seed * 1000003 + hash(profile.name) % 1000)
+    rng = random.Random(seed * 1000003 + zlib.crc32(profile.name.encode()) % 1000)
     ords = extracted_orderings()
     progs = [gen_program(profile, rng, i) for i in range(profile.n)]
     fails = []
@@ -688,6 +715,10 @@ def run_profile(profile, seed, monitors, oracles, stats, workers=16):
             if nontriv:
                 stats["conc_nontrivial"].add(sig)
             stats["conc_ends"][run.end.split(" ")[1] if run.end else "none"] += 1
+            if getattr(run, "proto", None):
+                stats["proto_mutex_steps"] = stats.get("proto_mutex_steps", 0) + run.proto[0]
+                stats["proto_signals"] = stats.get("proto_signals", 0) + run.proto[1]
+                stats["proto_signal_steps"] = stats.get("proto_signal_steps", 0) + run.proto[2]
             if len(stats["conc_samples"]) < 2:
                 stats["conc_samples"].append({"profile": profile.name, "program": prog.strip().split("\n"),
                                               "events": len(run.events), "schedule_prefix": run.schedule[:80]})
